@@ -79,10 +79,10 @@ func genSetOps(r *core.Rand, n int, univ []int, allowMulti bool) []setOp {
 }
 
 type setLog struct {
-	recs          []rec
-	gained, lost  int // from multi-element AddSet / RemoveSet
-	lens          []rec
-	multiTouched  map[int]bool
+	recs         []rec
+	gained, lost int // from multi-element AddSet / RemoveSet
+	lens         []rec
+	multiTouched map[int]bool
 }
 
 func doSetOp(s *sync2.Set[int], o setOp, client int, clk *clock, log *setLog) {
